@@ -79,12 +79,13 @@ def check_case(ctx, case):
     if not rel_ok(z3, np.where(est, cst, np.nan), max(1.0, abs(cst))) or not rel_ok(s3, s0, ssum):
         ctx.violation('constant', 'constant field %r is not reproduced: %r' % (cst, z3.tolist()), case)
     # exactness at observations with zero nugget
-    case0 = dict(case, vario=dict(vd, nugget=0.0), targets=case['coords'][:12])
+    dc, dv = krig.dedup(np.array(case['coords'], float), values)
+    case0 = dict(case, vario=dict(vd, nugget=0.0), targets=dc[:12].tolist())
     t0 = np.array(case0['targets'], float)
     z4, s4, _, _ = krig.run_transform(krig.build(case0), t0)
     reg('exact')
     m = ~np.isnan(z4)
-    v12 = values[:len(t0)]
+    v12 = dv[:len(t0)]
     if m.any() and (np.max(np.abs(z4[m] - v12[m])) > 1e-6 * scale_v or np.max(np.abs(s4[m])) > 1e-6 * vd['sill']):
         ctx.violation('exact', 'zero nugget, targets on observations: estimates %r vs observed %r, variances %r' % (
             z4.tolist(), v12.tolist(), s4.tolist()), case0)
